@@ -6,7 +6,8 @@ consults it in exactly these places (semantics of the stdlib, part of the truste
   naive-fromtimestamp   datetime/date `.fromtimestamp(x)` without a tz argument (local wall clock)
   naive-timestamp       `X.timestamp()` where X may be naive (naive values are read as local time)
   naive-astimezone      `X.astimezone(...)` where X may be naive (same implicit local reading)
-  local-time-api        `time.mktime(...)`, `time.localtime(...)`
+  local-time-api        `time.mktime(...)`, `time.localtime(...)`, and any read of the process zone constants
+                        `time.timezone`, `time.altzone`, `time.daylight`, `time.tzname`
 
 Accepted idioms (never flagged): `utcfromtimestamp(x)`, `fromtimestamp(x, tz=...)`,
 `calendar.timegm(x.utctimetuple())` / `calendar.timegm(x.timetuple())`, and `.timestamp()` /
@@ -183,11 +184,31 @@ def _owner(repo: Repo, mod: Module, node) -> Optional[FuncInfo]:
     return None
 
 
+ZONE_CONSTANTS = ("timezone", "altzone", "daylight", "tzname")
+
+
+def _zone_constant(mod: Module, n: ast.AST) -> Optional[str]:
+    """'timezone' etc. when the expression reads time.<zone constant> (through imports)."""
+    if isinstance(n, ast.Attribute) and n.attr in ZONE_CONSTANTS and isinstance(n.value, ast.Name) \
+            and isinstance(n.ctx, ast.Load) and mod.imports.get(n.value.id) == "time":
+        return n.attr
+    if isinstance(n, ast.Name) and isinstance(n.ctx, ast.Load) and \
+            mod.imports.get(n.id) in tuple(f"time.{c}" for c in ZONE_CONSTANTS):
+        return mod.imports[n.id].split(".")[-1]
+    return None
+
+
 def tz_sites(repo: Repo, module_rel_paths) -> List[Tuple[Optional[FuncInfo], ast.AST, str, bool, str]]:
     out = []
     for rel in module_rel_paths:
         mod = repo.module(rel)
         for c in walk(mod.tree, into_defs=True):
+            zc = _zone_constant(mod, c)
+            if zc is not None:
+                out.append((_owner(repo, mod, c), c, "local-time-api", False,
+                            f"time.{zc} is the process' own UTC offset / zone name: a codec computing with it "
+                            f"depends on the process time zone (and ignores DST of the instant at hand)"))
+                continue
             if not isinstance(c, ast.Call):
                 continue
             a = _attr(c)
